@@ -112,6 +112,14 @@ CHECKS = {
         note="same configuration = same constructor arguments; the number of pairs where A and B differed before loading is reported (vacuity guard)",
         ref="DESIGN.md 4/C15",
     ),
+    "C16": dict(
+        technique="bounded-exhaustive product exploration (subject x config x pattern x mode), every scalar parameter / input / context coordinate compared with a float64 central finite difference at two step sizes",
+        text="For every transform and every flow/distribution configuration (<=1 / <=2 deviations), in eval and in training mode, a fixed-weight scalar of the outputs and log-dets (log_probs) is "
+        "back-propagated to every trainable parameter, the inputs and the context; back-propagation must succeed, gradients must be finite, every parameter with a non-zero finite-difference "
+        "derivative must receive a gradient, and each gradient must equal the central finite difference of the real forward.",
+        note="rows are generic interior points; coordinates where two step sizes disagree (kinks) are skipped and counted; UMNN judged with its quadrature tolerance; at most 160 parameter scalars per case (deterministic stride)",
+        ref="DESIGN.md 4/C16",
+    ),
     "C17": dict(
         technique="bounded-exhaustive product exploration: boundary alphabet placed at every (batch, feature) position x subject x direction x box/tail bound x dtype x pattern; oracle = exception type / finiteness",
         text="For every domain-restricted transform and direction (Exp/Tanh/Sigmoid/Cauchy inverses, Logit, the four box splines as bare functions with three boxes, as CDF "
